@@ -123,6 +123,8 @@ def ops():
     add('astype float', lambda M, A: A.astype(float))
     add('len', lambda M, A: len(A))
     add('eye-A', lambda M, A: M.eye(A.shape[0]) - A)
+    add('(A-A.T).maximum(0)', lambda M, A: (A - A.T).maximum(0))
+    add('A.maximum(0)', lambda M, A: A.maximum(0))
     add('A<0', lambda M, A: A < 0)
     add('A>2', lambda M, A: A > 2)
     add('toarray', lambda M, A: A.toarray())
